@@ -43,11 +43,17 @@ fn outcome_text(r: &RealRun) -> String {
 pub fn examine(body: &[S], spec: &Spec, rep: Option<&mut Report>) -> Option<(String, String, String)> {
     let text_a = prog::program_text(body, Mode::Literal);
     let text_b = prog::program_text(body, Mode::Hidden);
+    // the reference is always run: even where it is not compared, it tells whether an execution depends on a
+    // value the documentation leaves open (attribution of panics to the exhausted-payload finding of C01)
+    let reference = Some(run_ref(body, REF_FUEL));
+    examine_texts(&text_a, &text_b, reference, spec, rep)
+}
+
+/// the same judgement from program texts (the reference run is optional: it needs the AST)
+pub fn examine_texts(text_a: &str, text_b: &str, reference: Option<prog::RefRun>, spec: &Spec, rep: Option<&mut Report>) -> Option<(String, String, String)> {
     let judge = Judge { value: spec.ref_value, log: spec.ref_log };
-    let need_ref = spec.ref_value || spec.ref_log;
-    let reference = if need_ref { Some(run_ref(body, REF_FUEL)) } else { None };
-    let a = run_real(&text_a, FUEL);
-    let b = run_real(&text_b, FUEL);
+    let a = run_real(text_a, FUEL);
+    let b = run_real(text_b, FUEL);
     let mut rep = rep;
     if let Some(rep) = rep.as_deref_mut() {
         rep.evaluations += 2;
@@ -68,10 +74,19 @@ pub fn examine(body: &[S], spec: &Spec, rep: Option<&mut Report>) -> Option<(Str
             rep.add("real_steps", a.steps);
         }
     }
+    let depends_on_unspecified = reference.as_ref().is_some_and(|r| matches!(&r.outcome, RefOutcome::GiveUp(w) if w.contains("unspecified")));
     // panics are violations of C02 wherever they show up; reported under the running property with a panic key
     for (which, run) in [("A", &a), ("B", &b)] {
         if let Outcome::Panic(p) = &run.outcome {
             match p.kind {
+                PanicKind::Panic if depends_on_unspecified => {
+                    // the program uses the payload of an exhausted iterator step (no value of its static type
+                    // exists: known finding of C01); what happens afterwards is its consequence, not judged here
+                    if let Some(rep) = rep.as_deref_mut() {
+                        rep.count("not-judged:panic-downstream-of-exhausted-payload");
+                    }
+                    return None;
+                }
                 PanicKind::Panic => return Some((format!("panic:{}", p.site()), which.into(), format!("panicked at {}: {}", p.site(), p.short_msg()))),
                 k => {
                     if let Some(rep) = rep.as_deref_mut() {
@@ -87,14 +102,21 @@ pub fn examine(body: &[S], spec: &Spec, rep: Option<&mut Report>) -> Option<(Str
         matches!(&run.outcome, Outcome::ExecErr(..))
             && run.origin.first_error.as_ref().is_some_and(|(k, _, _)| k == "AnonymousFunction" || k == "FunctionDeclaration")
     };
-    if closure_fold(&a) && !closure_fold(&b) {
+    if closure_fold(&a) || closure_fold(&b) {
         if let Some(rep) = rep.as_deref_mut() {
-            rep.count("closure-creation-folding-error(A)");
+            rep.count("closure-creation-folding-error");
+        }
+        if !spec.twins || !matches!(b.outcome, Outcome::Value(_)) || !closure_fold(&a) {
+            // a matter of constant folding (C04), not of the property this profile examines: not judged here
+            if let Some(rep) = rep.as_deref_mut() {
+                rep.count("not-judged:closure-creation-folding-error");
+            }
+            return None;
         }
         let (_, _, src) = a.origin.first_error.clone().unwrap();
         return Some(("closure-creation-folding-error".into(), "A".into(), format!("creating the function value failed with {} although its body is never run: {}", a.outcome.tag(), truncate(&src, 200))));
     }
-    if let Some(reference) = &reference {
+    if let Some(reference) = reference.as_ref().filter(|_| spec.ref_value || spec.ref_log) {
         for (which, run) in [("A", &a), ("B", &b)] {
             match compare_runs(run, reference, &judge) {
                 Diff::Same => {
@@ -205,7 +227,17 @@ pub fn replay(cfg: &Cfg, payload: &str, rep: &mut Report, spec: &Spec) {
     let get = |k: &str| -> Option<u64> { head.split_whitespace().find_map(|t| t.strip_prefix(&format!("{k}="))).and_then(|v| v.parse().ok()) };
     let pname = head.split_whitespace().find_map(|t| t.strip_prefix("profile=")).unwrap_or("");
     let (Some(seed), Some(shard), Some(index)) = (get("seed"), get("shard"), get("index")) else {
-        rep.notes.push("replay: no generator coordinates in payload".into());
+        // plain texts: `<literal twin>` then a line `#--- hidden twin` then `<hidden twin>` (prelude added here);
+        // judged without the reference (twin comparison, panics, closure-creation classification)
+        let mut parts = payload.split("#--- hidden twin\n");
+        let a = parts.next().unwrap_or("").lines().filter(|l| !l.starts_with('#')).collect::<Vec<_>>().join("\n");
+        let b = parts.next().map(|b| b.lines().filter(|l| !l.starts_with('#')).collect::<Vec<_>>().join("\n")).unwrap_or_else(|| a.clone());
+        let (ta, tb) = (format!("{}{a}", crate::ast::PRELUDE), format!("{}{b}", crate::ast::PRELUDE));
+        rep.count("programs");
+        if let Some((class, which, detail)) = examine_texts(&ta, &tb, None, spec, Some(rep)) {
+            let key = format!("{}:{class}", spec.prop.to_lowercase());
+            rep.violation(&key, &format!("[{which}] {detail} :: {}", truncate(&a, 400)), "diff", payload);
+        }
         return;
     };
     let profile = spec.profiles.iter().find(|p| p.name == pname).unwrap_or(&spec.profiles[0]);
@@ -223,9 +255,152 @@ pub fn replay(cfg: &Cfg, payload: &str, rep: &mut Report, spec: &Spec) {
     }
 }
 
+fn profile(name: &'static str, f: impl FnOnce(&mut Profile)) -> Profile {
+    let mut p = Profile::mixed();
+    p.name = name;
+    f(&mut p);
+    p
+}
+
 pub fn spec_for(prop: &str) -> Option<Spec> {
+    use crate::genp::NAMES_HOSTILE;
+    // statement kind weights: let, fn, effect-expr, if, ifset, match, while, for, loop, destruct, block, typed-let-stm
     Some(match prop {
         "DIFF" => Spec { prop: "DIFF", profiles: vec![Profile::mixed()], ref_value: true, ref_log: true, twins: true, quick: 4000, thorough: 400_000 },
+        // constants in every position, error-prone constant operands, closures capturing constants
+        "C04" => Spec {
+            prop: "C04",
+            profiles: vec![
+                profile("twins", |p| {
+                    p.err = 12;
+                    p.tick = 35;
+                }),
+                profile("twins-errors", |p| {
+                    p.err = 35;
+                    p.tick = 30;
+                    p.closures = 30;
+                }),
+                profile("twins-control", |p| {
+                    p.w = [20, 8, 10, 14, 6, 12, 8, 8, 5, 4, 6, 8];
+                    p.tick = 40;
+                }),
+            ],
+            ref_value: false,
+            ref_log: false,
+            twins: true,
+            quick: 60_000,
+            thorough: 3_000_000,
+        },
+        // scoping: hostile names (the helper closures' own locals), closures, blocks, modules, user iterators consumed by every operator
+        "C06" => Spec {
+            prop: "C06",
+            profiles: vec![
+                profile("scopes", |p| {
+                    p.names = NAMES_HOSTILE;
+                    p.err = 0;
+                    p.closures = 40;
+                    p.modules = 12;
+                    p.iterators = 30;
+                    p.w = [30, 18, 8, 8, 4, 6, 5, 8, 3, 5, 10, 8];
+                }),
+                profile("scopes-few-names", |p| {
+                    p.names = &["a", "b", "res", "value"];
+                    p.err = 0;
+                    p.closures = 50;
+                    p.modules = 10;
+                    p.iterators = 35;
+                    p.w = [34, 20, 6, 6, 3, 5, 4, 8, 2, 6, 12, 8];
+                }),
+            ],
+            ref_value: true,
+            ref_log: true,
+            twins: false,
+            quick: 60_000,
+            thorough: 3_000_000,
+        },
+        // evaluation order: almost every scalar operand carries an effect marker; only the effect log is judged
+        "C07" => Spec {
+            prop: "C07",
+            profiles: vec![
+                profile("order", |p| {
+                    p.tick = 85;
+                    p.err = 4;
+                }),
+                profile("order-calls", |p| {
+                    p.tick = 90;
+                    p.err = 0;
+                    p.closures = 35;
+                    p.w = [34, 16, 14, 8, 4, 8, 3, 5, 2, 6, 4, 8];
+                }),
+            ],
+            ref_value: false,
+            ref_log: true,
+            twins: false,
+            quick: 60_000,
+            thorough: 3_000_000,
+        },
+        "C11" => Spec {
+            prop: "C11",
+            profiles: vec![
+                profile("iterators", |p| {
+                    p.iterators = 90;
+                    p.err = 0;
+                    p.tick = 45;
+                    p.w = [34, 8, 8, 5, 3, 5, 3, 16, 2, 4, 3, 9];
+                }),
+                profile("iterators-shared", |p| {
+                    p.iterators = 100;
+                    p.err = 0;
+                    p.tick = 50;
+                    p.names = &["a", "b", "it", "x"];
+                    p.w = [40, 6, 10, 5, 2, 4, 2, 18, 2, 3, 2, 6];
+                }),
+            ],
+            ref_value: true,
+            ref_log: true,
+            twins: false,
+            quick: 60_000,
+            thorough: 3_000_000,
+        },
+        "C12" => Spec {
+            prop: "C12",
+            profiles: vec![profile("control", |p| {
+                p.err = 0;
+                p.tick = 40;
+                p.unions = 40;
+                p.w = [18, 14, 8, 14, 12, 14, 12, 10, 8, 3, 6, 10];
+                p.max_depth = 4;
+            })],
+            ref_value: true,
+            ref_log: true,
+            twins: false,
+            quick: 60_000,
+            thorough: 3_000_000,
+        },
+        "C13" => Spec {
+            prop: "C13",
+            profiles: vec![
+                profile("cells", |p| {
+                    p.cells = 90;
+                    p.err = 14;
+                    p.tick = 25;
+                    p.unions = 30;
+                    p.w = [30, 10, 30, 6, 4, 5, 5, 5, 3, 4, 4, 6];
+                }),
+                profile("cells-closures", |p| {
+                    p.cells = 100;
+                    p.err = 8;
+                    p.closures = 40;
+                    p.names = &["a", "b", "c", "x"];
+                    p.w = [30, 16, 30, 5, 3, 4, 4, 5, 2, 4, 4, 5];
+                }),
+            ],
+            ref_value: true,
+            ref_log: true,
+            twins: false,
+            quick: 60_000,
+            thorough: 3_000_000,
+        },
         _ => return None,
     })
 }
